@@ -6,6 +6,8 @@ CONSTANTS
   ExtraPayloads <- GenExtra
   Sizes <- GenSizes
   Runes <- GenRunes
+  RErrs = {"EOF", "boom", "wrapEOF", "unexpEOF", "panic"}
+  WErrs = {"nil", "boom", "EOF", "short write", "panic"}
   MaxLen = 0
   Depth = 62
 INVARIANTS Emit
